@@ -96,8 +96,36 @@ func genAnalysis() (string, string) {
 			}
 			return true
 		})
+		// names declared inside the body (x := ...) are renamed L0, L1, ... in order of
+		// declaration: the two loops may call their locals differently
+		locals := map[string]string{}
+		sels := map[*ast.Ident]bool{}
+		ast.Inspect(body, func(x ast.Node) bool {
+			switch v := x.(type) {
+			case *ast.SelectorExpr:
+				sels[v.Sel] = true
+			case *ast.AssignStmt:
+				if v.Tok == token.DEFINE {
+					for _, l := range v.Lhs {
+						if id, ok := l.(*ast.Ident); ok && id.Name != "_" && locals[id.Name] == "" {
+							locals[id.Name] = fmt.Sprintf("L%d", len(locals))
+						}
+					}
+				}
+			}
+			return true
+		})
+		ast.Inspect(body, func(x ast.Node) bool {
+			if id, ok := x.(*ast.Ident); ok && !sels[id] && locals[id.Name] != "" {
+				id.Name = locals[id.Name]
+			}
+			return true
+		})
 		var b bytes.Buffer
 		for _, st := range body.List {
+			if isHookStmt(st) {
+				continue
+			}
 			var sb bytes.Buffer
 			if err := format.Node(&sb, token.NewFileSet(), st); err != nil {
 				refuse("analysis: cannot print a statement: %v", err)
@@ -124,7 +152,7 @@ func genAnalysis() (string, string) {
 		return "Analysis.v", "(* not generated *)\n"
 	}
 	// wrappers: single `return kernel(args...)`
-	type wrap struct{ name, kernel, lead, scratchRoots string }
+	type wrap struct{ name, kernel, lead, scratchRoots, role, class string }
 	var wraps []wrap
 	for _, n := range []string{"computeMBAlphaDCT", "computeMBAlphaDCTWorker", "computeMBUVAlphaDCT", "computeMBUVAlphaDCTWorker"} {
 		fd := funcs[n]
@@ -163,7 +191,22 @@ func genAnalysis() (string, string) {
 								}
 							}
 						}
-						wraps = append(wraps, wrap{n, k.Name, strings.Join(lead, ", "), strings.Join(roots, ",")})
+						// role and scratch class: a worker wrapper must take every scratch
+						// argument from a parameter other than the shared encoder (its first one)
+						role, class := "serial", "n/a"
+						if strings.HasSuffix(n, "Worker") {
+							role, class = "worker", "own-only"
+							shared := ""
+							if fd.Type.Params != nil && len(fd.Type.Params.List) > 0 && len(fd.Type.Params.List[0].Names) > 0 {
+								shared = fd.Type.Params.List[0].Names[0].Name
+							}
+							for _, r := range roots {
+								if r == shared || r == "?" {
+									class = "uses-shared"
+								}
+							}
+						}
+						wraps = append(wraps, wrap{n, k.Name, strings.Join(lead, ", "), strings.Join(roots, ","), role, class})
 						ok = true
 					}
 				}
@@ -339,12 +382,12 @@ func genAnalysis() (string, string) {
 	out.WriteString("(* GENERATED by tools/gosrc2v (analysis.go) from /repo's current source. Do not edit. *)\nFrom Coq Require Import List String.\nImport ListNotations.\nOpen Scope string_scope.\n\n")
 	fmt.Fprintf(&out, "(* per-macroblock loop body of computeAlphasSerial, normalised *)\nDefinition serial_body : string :=\n%s.\n\n", concCoqString(normalise(serialBody)))
 	fmt.Fprintf(&out, "(* per-macroblock loop body of the worker goroutines of computeAlphas, normalised *)\nDefinition worker_body : string :=\n%s.\n\n", concCoqString(normalise(workerBody)))
-	out.WriteString("(* wrapper, kernel it returns, leading arguments, root identifiers of the scratch arguments *)\nDefinition wrappers : list (string * string * string * string) :=\n  [")
+	out.WriteString("(* role, wrapper, kernel it returns, leading arguments, whether a worker's scratch arguments all come from its own (non-encoder) parameter; roots of the scratch arguments in the comment *)\nDefinition wrappers : list (string * string * string * string * string) :=\n  [")
 	for i, w := range wraps {
 		if i > 0 {
 			out.WriteString(";\n   ")
 		}
-		fmt.Fprintf(&out, "(%s, %s, %s, %s)", concCoqString(w.name), concCoqString(w.kernel), concCoqString(w.lead), concCoqString(w.scratchRoots))
+		fmt.Fprintf(&out, "(%s, %s, %s, %s, %s) (* %s *)", concCoqString(w.role), concCoqString(w.name), concCoqString(w.kernel), concCoqString(w.lead), concCoqString(w.class), w.scratchRoots)
 	}
 	out.WriteString("].\n\n(* kernel, scratch parameter, kind of the first access in program order *)\nDefinition kernel_scratch_first_access : list (string * string * string) :=\n  [")
 	for i, a := range fas {
